@@ -59,6 +59,9 @@ type vmMachine struct {
 	tempFail  bool // make the next temporary mapping fail
 
 	aliases [][]byte
+	// onTemp runs when the kernel asks for a temporary mapping: the moment the page-fault
+	// handler is about to copy a page (see realias)
+	onTemp func()
 
 	// hiMask chooses the frames that live in the upper half of the physical address space:
 	// arena frame i does when bit i%64 is set
@@ -125,6 +128,7 @@ func (m *vmMachine) reset() {
 	m.allocs, m.failAt, m.failErr, m.handed = 0, 0, nil, nil
 	m.tempOut, m.tempFail = false, false
 	m.hiMask, m.rootExtra, m.lowNext = 0, 0, 0
+	m.onTemp = nil
 	if m.high == nil {
 		m.high = make([]bool, vmArenaFrames)
 	}
@@ -181,6 +185,9 @@ func (m *vmMachine) install() {
 		return f, nil
 	})
 	mapTemporaryFn = func(f mm.Frame) (mm.Page, *kernel.Error) {
+		if m.onTemp != nil {
+			m.onTemp()
+		}
 		if m.tempFail {
 			m.tempFail = false
 			return 0, vmErrTempInjected
@@ -281,6 +288,16 @@ func (m *vmMachine) alias(f mm.Frame) uintptr {
 	}
 	m.aliases = append(m.aliases, b)
 	return uintptr(unsafe.Pointer(&b[0]))
+}
+
+// realias makes the alias page at addr show frame f from now on: what a virtual page shows is
+// the frame its page-table entry refers to at that moment.
+func (m *vmMachine) realias(addr uintptr, f mm.Frame) {
+	const mapFixed = 0x10
+	got, _, e := syscall.Syscall6(syscall.SYS_MMAP, addr, 4096, syscall.PROT_READ, syscall.MAP_SHARED|mapFixed, uintptr(m.fd), m.ptr(f.Address())-m.base)
+	if e != 0 || got != addr {
+		panic(vmFault{"harness: re-pointing an alias page failed: " + e.Error()})
+	}
 }
 
 // newRoot builds an empty top-level table with the recursive entry, the way
